@@ -40,7 +40,7 @@ static KNOWN_HIT: Mutex<Option<Violation>> = Mutex::new(None);
 
 fn gen_history_op(rng: &mut Rng, big: bool) -> Op {
     let thread = rng.below(3) as u32;
-    match rng.below(41) {
+    match rng.below(43) {
         0..=11 => Op::AppendMessage {
             thread,
             size: if big && rng.chance(1, 3) { rng.range(4, 5) as u32 } else { rng.range(1, 3) as u32 },
@@ -87,6 +87,9 @@ fn gen_history_op(rng: &mut Rng, big: bool) -> Op {
             summary: SummarySel::Text,
         },
         39 => Op::RawSession { frames: rng.range(3, 8) as u32 },
+        // a run whose reply frames and session snapshot are written the way a real run writes
+        // them: the snapshot file's create / write boundaries become crash points
+        41 | 42 => Op::RunWithReply { thread, size: rng.range(1, 2) as u32, deltas: rng.range(1, 3) as u32, snapshot: 1 },
         _ => Op::Replay { thread },
     }
 }
@@ -665,14 +668,14 @@ impl Check for C05 {
         serde_json::to_value(sc).unwrap()
     }
     fn rule(&self) -> String {
-        "one run = one seeded history of 3-16 store operations (messages incl. frames larger than the 8 KiB writer buffer, full runs with compile/side-effects/cursor, manual and automatic compaction, branch, handoff) executed once; EVERY mutating file-system effect boundary of the run (log, each sidecar and index, index.json tmp+rename, artifact tmp+rename) is a crash point: the captured on-disk state is restarted with a fresh EventLog+ContinuityStore, replayed, continued with further appends (1 in 8 histories first let another stream write 1.3 MB, so the threads' tails are far from the end of the log; the default thread must be obtainable and accept a post) and judged; evaluations = crash states restarted; distinct = distinct abstract crash state (files per class, lines per class, torn-frame flag, next effect class); exhaustive within each history, sampled across histories".into()
+        "one run = one seeded history of 3-16 store operations (messages incl. frames larger than the 8 KiB writer buffer, full runs with compile/side-effects/cursor, runs with reply frames and a session snapshot, manual and automatic compaction, branch, handoff) executed once; EVERY mutating file-system effect boundary of the run (log, each sidecar and index, index.json tmp+rename, artifact tmp+rename) is a crash point: the captured on-disk state is restarted with a fresh EventLog+ContinuityStore, replayed, continued with further appends (1 in 8 histories first let another stream write 1.3 MB, so the threads' tails are far from the end of the log; the default thread must be obtainable and accept a post) and judged; evaluations = crash states restarted; distinct = distinct abstract crash state (files per class, lines per class, torn-frame flag, next effect class); exhaustive within each history, sampled across histories".into()
     }
     fn assumptions(&self) -> Vec<String> {
         vec![
             "crash = process death with every completed syscall surviving (rip never fsyncs; power loss is outside the property)".into(),
             "effects are atomic at syscall granularity: a write(2) is not split".into(),
             "the history runs on one actor; concurrent writers at the crash instant are not modelled".into(),
-            "session snapshots are not part of store-level histories (whole-engine runs cover them in C07)".into(),
+            "session snapshots are written by the harness through the public snapshot writer right after the run's session frames (as run_session does); crash points in the middle of a real engine run are not generated".into(),
         ]
     }
     fn components(&self) -> Value {
